@@ -328,6 +328,11 @@ impl VirtualSystem {
         // TODO Support AT_FDCWD
         const _POSIX_SYMLOOP_MAX: i32 = 8;
 
+        // POSIX: an empty pathname does not name any file
+        if path.as_unix_str().as_bytes().is_empty() {
+            return Err(Errno::ENOENT);
+        }
+
         let mut path = Cow::Borrowed(path);
         for _count in 0.._POSIX_SYMLOOP_MAX {
             let resolved_path = self.resolve_relative_path(&path);
@@ -407,6 +412,10 @@ impl VirtualSystem {
         flags: EnumSet<OpenFlag>,
         mode: Mode,
     ) -> Result<(Rc<RefCell<Inode>>, bool, bool)> {
+        // POSIX: an empty pathname does not name any file
+        if path.to_bytes().is_empty() {
+            return Err(Errno::ENOENT);
+        }
         let path = self.resolve_relative_path(Path::new(UnixStr::from_bytes(path.to_bytes())));
         let umask = self.current_process().umask;
 
